@@ -9,7 +9,7 @@
 //	C <id> wq bound=<n> maxframe=<bytes> client=<0|1>
 //	                                  queued (asynchronous send queue) mode on an in-memory conn whose Write is GATED:
 //	                                  the drainer goroutine blocks in every conn write until released (ok / error).
-//	  O write <len> | send ok|err | close | Q
+//	  O write <len> | send ok|err | sendlast | close | Q
 //	  R ret=<ok|full|closed>  /  R sent=<call:frag|none>  /  R ok  /  R wire=<call:frag,...> ql=<len(sendQueue)>
 //
 //	C <id> wd maxframe=<bytes> client=<0|1>
@@ -116,8 +116,10 @@ func genWQ(g *lp.Gen, id int) {
 			}
 			g.P("O write %d", ln)
 			pend += fr
-		case r < 16:
+		case r < 14:
 			g.P("O send ok")
+		case r < 16:
+			g.P("O sendlast")
 		case r < 17:
 			g.P("O send err")
 		case r < 18:
@@ -320,7 +322,8 @@ type gconn struct {
 	mu      sync.Mutex
 	wire    []byte
 	gated   bool
-	waiters chan *wreq
+	wmu     sync.Mutex
+	waiters []*wreq
 	dead    bool
 	closed  bool
 	failAt  int
@@ -333,7 +336,9 @@ var errInjected = errors.New("injected conn write error")
 func (c *gconn) Write(b []byte) (int, error) {
 	if c.gated {
 		r := &wreq{data: append([]byte(nil), b...), res: make(chan error, 1)}
-		c.waiters <- r
+		c.wmu.Lock()
+		c.waiters = append(c.waiters, r)
+		c.wmu.Unlock()
 		if err := <-r.res; err != nil {
 			return 0, err
 		}
@@ -355,7 +360,26 @@ func (c *gconn) Write(b []byte) (int, error) {
 	}
 	return len(b), nil
 }
-func (c *gconn) Read(b []byte) (int, error)         { select {} }
+func (c *gconn) Read(b []byte) (int, error) { select {} }
+
+// nwait is the number of conn writes currently held at the gate.
+func (c *gconn) nwait() int { c.wmu.Lock(); defer c.wmu.Unlock(); return len(c.waiters) }
+
+// take removes the first (or the last) held write.
+func (c *gconn) take(last bool) *wreq {
+	c.wmu.Lock()
+	defer c.wmu.Unlock()
+	if len(c.waiters) == 0 {
+		return nil
+	}
+	i := 0
+	if last {
+		i = len(c.waiters) - 1
+	}
+	r := c.waiters[i]
+	c.waiters = append(c.waiters[:i], c.waiters[i+1:]...)
+	return r
+}
 func (c *gconn) Close() error                       { c.mu.Lock(); c.closed = true; c.mu.Unlock(); return nil }
 func (c *gconn) LocalAddr() net.Addr                { return &net.TCPAddr{} }
 func (c *gconn) RemoteAddr() net.Addr               { return &net.TCPAddr{} }
@@ -413,7 +437,7 @@ func runWQ(e *lp.Exec, head string, ops []string) {
 	u := websocket.NewUpgrader()
 	u.Engine = eng
 	u.BlockingModSendQueueMaxSize = uint16(bound)
-	gc := &gconn{gated: true, waiters: make(chan *wreq, 256)}
+	gc := &gconn{gated: true}
 	var wc *websocket.Conn
 	if client {
 		wc = websocket.NewClientConn(u, gc, "", false, true)
@@ -428,11 +452,18 @@ func runWQ(e *lp.Exec, head string, ops []string) {
 	sentErr := false
 	closed := false
 	shape := head[strings.Index(head, "wq"):]
+	reported2 := false
+	twoDrainers := func() {
+		if n := gc.nwait(); n >= 2 && !reported2 {
+			reported2 = true
+			e.Oracle("c14-frames-whole", "queued: %d conn writes are in flight at once (more than one drainer goroutine): frames of different calls can interleave", n)
+		}
+	}
 	settle := func() {
 		// the drainer either shows up at the gate again, or the queue is reset, or it has exited for good
 		waitFor(func() bool {
 			st := wc.VerifStopState()
-			return len(gc.waiters) > 0 || st.QueueLen == 0
+			return gc.nwait() > 0 || st.QueueLen == 0
 		}, map[bool]time.Duration{false: 150 * time.Millisecond, true: 30 * time.Millisecond}[sentErr || closed])
 	}
 	for _, ln := range ops {
@@ -456,21 +487,23 @@ func runWQ(e *lp.Exec, head string, ops []string) {
 			e.P("R ret=%s", rets[gid])
 			shape += fmt.Sprintf("|w%d:%s", nfrag(n, maxf), rets[gid])
 			gid++
-			waitFor(func() bool { return len(gc.waiters) > 0 || wc.VerifStopState().QueueLen == 0 || sentErr || closed }, 100*time.Millisecond)
-		case ow[1] == "send":
-			select {
-			case r := <-gc.waiters:
-				ok := ow[2] == "ok"
+			waitFor(func() bool { return gc.nwait() > 0 || wc.VerifStopState().QueueLen == 0 || sentErr || closed }, 100*time.Millisecond)
+			twoDrainers()
+		case ow[1] == "send" || ow[1] == "sendlast":
+			// `sendlast`: if two conn writes are held at the gate (impossible with a single drainer), release the
+			// younger one first — the schedule in which two drainers visibly interleave frames
+			twoDrainers()
+			r := gc.take(ow[1] == "sendlast")
+			if r != nil {
+				ok := ow[1] == "sendlast" || ow[2] == "ok"
 				gc.mu.Lock()
 				if gc.closed || gc.dead {
 					ok = false // the underlying conn is gone: the write fails whatever the harness would like
 				}
 				id := "?"
 				if ok {
-					before := len(gc.wire)
 					gc.wire = append(gc.wire, r.data...)
 					fs, _ := decode(gc.wire)
-					_ = before
 					ids, _ := identify(fs, lens, maxf, true)
 					if len(ids) > 0 {
 						id = ids[len(ids)-1]
@@ -487,9 +520,10 @@ func runWQ(e *lp.Exec, head string, ops []string) {
 					r.res <- errInjected
 				}
 				settle()
+				twoDrainers()
 				e.P("R sent=%s", id)
 				shape += "|s" + id[:1]
-			default:
+			} else {
 				e.P("R sent=none")
 			}
 		case ow[1] == "close":
@@ -505,7 +539,7 @@ func runWQ(e *lp.Exec, head string, ops []string) {
 	gc.mu.Unlock()
 	fs, rest := decode(wire)
 	st := wc.VerifStopState()
-	quiescent := len(gc.waiters) == 0 && st.QueueLen == 0 && !sentErr && !closed
+	quiescent := gc.nwait() == 0 && st.QueueLen == 0 && !sentErr && !closed
 	ids, prob := identify(fs, lens, maxf, !quiescent)
 	if prob != "" || len(rest) != 0 {
 		e.Oracle("c14-frames-whole", "queued bound=%d: %s; frames %v", bound, prob, ids)
@@ -533,8 +567,18 @@ func runWQ(e *lp.Exec, head string, ops []string) {
 	e.Key(shape, gid >= 2)
 	e.Count("cases", "wq")
 	// let a blocked drainer go
-	for len(gc.waiters) > 0 {
-		r := <-gc.waiters
+	for i := 0; i < 1000; i++ {
+		r := gc.take(false)
+		if r == nil {
+			if i > 0 {
+				break
+			}
+			time.Sleep(2 * time.Millisecond)
+			if gc.nwait() == 0 {
+				break
+			}
+			continue
+		}
 		r.res <- errInjected
 		time.Sleep(time.Millisecond)
 	}
